@@ -40,8 +40,10 @@ type RouteSpec struct {
 }
 
 type FileFault struct {
-	ErrAt     int `json:"err_at"` // -1 none
-	ChunkSize int `json:"chunk"`
+	ErrAt     int    `json:"err_at"` // -1 none
+	ChunkSize int    `json:"chunk"`
+	StallAt   int    `json:"stall_at,omitempty"`
+	StallFor  string `json:"stall_for,omitempty"`
 }
 
 type WorldSpec struct {
@@ -140,6 +142,7 @@ func runCmd(t *testing.T, c simrt.Chooser, w *WorldSpec, trace bool) *CmdResult 
 			fs := &simio.FileSpec{Data: []byte(data), ErrAt: -1}
 			if ff, ok := w.FileFault[name]; ok {
 				fs.ErrAt, fs.ChunkSize = ff.ErrAt, ff.ChunkSize
+				fs.StallAt, fs.StallFor = ff.StallAt, parseDur(ff.StallFor)
 			}
 			iow.Files[name] = fs
 		}
@@ -147,6 +150,7 @@ func runCmd(t *testing.T, c simrt.Chooser, w *WorldSpec, trace bool) *CmdResult 
 			fs := &simio.FileSpec{Data: []byte(*w.Stdin), ErrAt: -1}
 			if ff, ok := w.FileFault["-"]; ok {
 				fs.ErrAt, fs.ChunkSize = ff.ErrAt, ff.ChunkSize
+				fs.StallAt, fs.StallFor = ff.StallAt, parseDur(ff.StallFor)
 			}
 			iow.Stdin = fs
 		} else {
